@@ -220,6 +220,10 @@ class IndexBase(Sub):
         if dl == 'var':
             vars_['arr'] = M
             a = 'arr'
+        elif dl == 'vart':
+            # rows as a database driver hands them over: a list of tuples (a flat array: one tuple)
+            vars_['arr'] = [tuple(r) for r in M] if M and isinstance(M[0], list) else tuple(M)
+            a = 'arr'
         elif dl == 'rng':
             a = range_label(len(M), len(M[0]))
             cells = {a: M}
@@ -303,7 +307,7 @@ class IndexGrid(IndexBase):
     def cases(self, tier, unit):
         for R, C in self.shapes(tier):
             for et in ('n', 't'):
-                dls = ['var', 'rng'] + (['lit'] if (R >= 2 and C >= 2) else [])
+                dls = ['var', 'rng'] + (['lit'] if (R >= 2 and C >= 2) else []) + (['vart'] if R <= 3 and C <= 3 else [])
                 for dl in dls:
                     for idl in ('lit', 'var'):
                         for rs in specs(R, ('omit', 'blank')):
@@ -336,7 +340,7 @@ class IndexVector(IndexBase):
         m = 4 if tier == 'quick' else 8
         for n in range(1, m + 1):
             for et in ('n', 't'):
-                for dl in ('var', 'litc', 'lits'):
+                for dl in ('var', 'litc', 'lits') + (('vart',) if n <= 3 else ()):
                     for idl in ('lit', 'var'):
                         for rs in specs(n, ('omit', 'blank')):
                             yield ['f', et, n, dl, idl, rs]
@@ -484,7 +488,7 @@ LOOKUPS = {
     'g': [1, 2, 'a', 'A', 3, 'b'],
 }
 MAXLEN = {'quick': {'n': 4, 't': 4, 'b': 3, 'm': 3, 'g': 4}, 'thorough': {'n': 6, 't': 5, 'b': 4, 'm': 4, 'g': 5}}
-FLAT_DL = ('var', 'litc', 'lits', 'rngflat')
+FLAT_DL = ('var', 'litc', 'lits', 'rngflat', 'vart')
 NESTED_DL = ('rngrow', 'rngcol')
 
 
@@ -493,6 +497,9 @@ def deliver(items, dl, vars_):
     n = len(items)
     if dl == 'var':
         vars_['arr'] = list(items)
+        return 'arr', None
+    if dl == 'vart':
+        vars_['arr'] = tuple(items)
         return 'arr', None
     if dl == 'litc':
         return '{' + ','.join(lit(v) for v in items) + '}', None
@@ -655,6 +662,51 @@ class MatchSorted(Sub):
                 if r and len(out) < 6:
                     out.append(r)
         return out
+
+
+class MatchSpecialLetters(Sub):
+    name = 'c18.match_special_letters'
+    rule = ('MATCH type 0 over letters whose lower-case form is longer than the letter or depends on its place in the word '
+            '(dotted capital I, capital sigma at the end of a word): ? stands for exactly one character of the item, a pattern '
+            'matches an item spelled in the same case, and a wrong position is never returned; 14 patterns x item lists of the '
+            'host and literal kind; non-trivial = all')
+    min_cases = 10
+    min_nontrivial = 10
+    CASES = [
+        # (lookup text, items, demanded position or None for #N/A)
+        ('??stanbul', ['\u0130stanbul', 'Xxstanbul'], 2),
+        ('?stanbul', ['\u0130stanbul'], 1),
+        ('?', ['\u0130'], 1),
+        ('?stanbul', ['Xxstanbul', '\u0130stanbul'], 2),
+        ('\u0130*', ['istanbul', '\u0130stanbul'], 2),
+        ('*\u03a3', ['\u039f\u0394\u039f\u03a3'], 1),
+        ('\u039f\u0394\u039f\u03a3*', ['\u039f\u0394\u039f\u03a3\u0391'], 1),
+        ('\u039f\u0394\u039f\u03a3', ['\u039f\u0394\u039f\u03a3'], 1),
+        ('\u03bf\u03b4\u03bf\u03c3*', ['\u03bf\u03b4\u03bf\u03c3\u03b1'], 1),
+        ('???', ['\u0130\u0130', '\u0130\u0130\u0130'], 2),
+        ('a?b', ['a\u0130b'], 1),
+        ('a??b', ['a\u0130b'], None),
+        ('\u1e9e?', ['\u1e9ex'], 1),
+        ('?', ['\ufb01'], 1),
+    ]
+
+    def cases(self, tier, unit):
+        for i in range(len(self.CASES)):
+            for dl in ('var', 'litc', 'rngcol'):
+                yield [i, dl]
+
+    def check(self, env, case):
+        i, dl = case
+        x, items, want = self.CASES[i]
+        env.nt()
+        vars_ = {'xv': x}
+        a, cells = deliver(items, dl, vars_)
+        o = env.evo('MATCH(xv,%s,0)' % a, vars_, None, cells)
+        ok = check_position(o, set([want]) if want else set(), dl in NESTED_DL)
+        if not ok:
+            return fail('MATCH(xv,%s,0) with xv = %r on %r = %r, expected %s' % (a, x, items, o, want if want else '#N/A'),
+                        ['v', want] if want else ['e', '#N/A'], o)
+        return None
 
 
 class IndexMatch(Sub):
@@ -842,4 +894,4 @@ class LookupScale(Sub):
         return out
 
 
-SUBS = [Choose(), IndexGrid(), IndexVector(), MatchExact(), MatchSorted(), IndexMatch(), AfterFloatUse(), LookupWholeFloats(), LookupSiblings(), LookupScale()]
+SUBS = [Choose(), IndexGrid(), IndexVector(), MatchExact(), MatchSorted(), MatchSpecialLetters(), IndexMatch(), AfterFloatUse(), LookupWholeFloats(), LookupSiblings(), LookupScale()]
